@@ -369,15 +369,34 @@ vbi_page_table_next_page	(const vbi_page_table *pt,
  * This function returns the number of pages which have been added
  * to the page table. Multiple subpages of a page count as one page.
  *
- * This is a fast function. It just returns the value of a counter
- * maintained by the add and remove functions.
+ * Pages with all subpages are counted by the add and remove functions.
+ * Pages of which only some subpages have been added are counted here,
+ * which takes longer when there are many of them.
  */
 unsigned int
 vbi_page_table_num_pages	(const vbi_page_table *pt)
 {
+	unsigned int n_pages;
+	unsigned int i;
+	unsigned int j;
+
 	assert (NULL != pt);
 
-	return pt->pages_popcnt + pt->subpages_size;
+	n_pages = pt->pages_popcnt;
+
+	/* The subpages vector can contain multiple subpage ranges
+	   of a page. */
+	for (i = 0; i < pt->subpages_size; ++i) {
+		for (j = 0; j < i; ++j) {
+			if (pt->subpages[j].pgno == pt->subpages[i].pgno)
+				break;
+		}
+
+		if (j >= i)
+			++n_pages;
+	}
+
+	return n_pages;
 }
 
 static void
